@@ -24,6 +24,24 @@ pub fn check(shape: &Shape, value: &Value, l: &mut Local) -> CaseResult {
     let bytes = postcard::to_allocvec(&t).map_err(|e| fail("dyn-agree", format!("static encoder failed: {:?}", e), cj()))?;
     let one_tuple = dynmap::contains_one_tuple(shape);
     let tag = |f: crate::runner::Fail| if one_tuple { f.sig(SIG_ONE_TUPLE) } else { f };
+    // the codec is a pure function of (schema, input): a call that was turned down half-way just before must not matter
+    {
+        thread_local! {
+            static REJECT: (postcard_schema::schema::owned::OwnedDataModelType, Json) = (
+                schematree::to_owned_expected(&crate::schematree::Tree::Tuple(vec![
+                    crate::schematree::Tree::U8,
+                    crate::schematree::Tree::Option(Box::new(crate::schematree::Tree::U16)),
+                    crate::schematree::Tree::String,
+                    crate::schematree::Tree::U8,
+                ])),
+                serde_json::json!([200, 513, "half", "not a number"]),
+            );
+        }
+        REJECT.with(|(s, bad)| {
+            let _ = no_panic(|| postcard_dyn::to_stdvec_dyn(s, bad));
+            let _ = no_panic(|| postcard_dyn::from_slice_dyn(s, &[200, 1, 0x81]));
+        });
+    }
     l.eval();
     let enc = no_panic(|| postcard_dyn::to_stdvec_dyn(&schema, &j))
         .map_err(|p| fail("dyn-agree", format!("to_stdvec_dyn panicked: {}", p), cj()).sig(format!("panic:{}", panic_site(&p))))?;
